@@ -18,10 +18,15 @@ def scenarios(chk):
     tlc.must_pass(r, "CalendarMC")
     chk.add_tlc(r, "CalendarMC/" + chk.tier)
     out = []
-    for st in tlaval.parse_dump(dump, want=lambda b: "done = TRUE" in b):
+    cnt = {"picked": 0, "seeds": 0}
+    def want(b):
+        if "done = FALSE" in b:
+            cnt["picked" if "picked = TRUE" in b else "seeds"] += 1
+        return "done = TRUE" in b
+    for st in tlaval.parse_dump(dump, want=want):
         out.append((st["p"], st["out"]))
     os.remove(dump)
-    if len(out) * 2 != r.distinct:
+    if len(out) != cnt["picked"] or len(out) * 2 + cnt["seeds"] != r.distinct:
         raise tlc.MachineryError("CalendarMC dump has %d computed states, TLC reported %d distinct" % (len(out), r.distinct))
     out.sort(key=lambda po: (LETTERS.index(po[0]["f"]), po[0]["n"]))
     return out
